@@ -224,6 +224,9 @@ def cases(draw, quick=True):
 
 def run_shard(ctx: core.Ctx) -> core.ShardResult:
     res = core.ShardResult()
+    # cheap routing-heavy family first (sparse machines, level 1)
+    core.run_hypothesis(ctx, res, cc.routing_cases(), check,
+                        ctx.n(14, 150), shrink=False, min_cases=6, sub=1)
     core.run_hypothesis(ctx, res, cases(ctx.tier == 'quick'), check,
-                        ctx.n(9, 100), shrink=False)
+                        ctx.n(8, 100), shrink=False, min_cases=3)
     return res
